@@ -68,81 +68,7 @@ def run(ctx):
         ctx.add("C01.R5", "adss::Commune::share#dealer-call", False, "expected exactly one dealer_rng call, found %d" % len(dr), at)
 
     # ---- R7 payload framing -------------------------------------------------------------------------------
-    eng, ret, st, fr = ctx.root("sta_rs::Message::generate")
-    at = ctx.fn("sta_rs::Message::generate").loc
-    cn = Q.calls(eng, "sta_rs::Ciphertext::new")
-    if len(cn) != 1:
-        ctx.add("C01.R7", "sta_rs::Message::generate#encrypt-call", False, "expected one Ciphertext::new call", at)
-    else:
-        data = cn[0]["argv"][1]
-        parts = Q.split_chain_loops(Q.parts_of(data))
-        ctx.extra["payload_parts"] = str(parts)[:600]
-        # `once(m).chain(aux.as_ref().map(..)).for_each(store)`: an optional tail - present exactly when the Option is Some
-        opt_tail = [p_ for p_ in parts if p_[0] == "opt"]
-        opt_view_of_aux = False
-        if len(opt_tail) == 1 and parts[-1] is opt_tail[0]:
-            E = opt_tail[0][1]
-
-            def _dz(f, v_):
-                return f[0].op == "discr" and Q.path_of(f[0].args[0]) == "aux" and f[1:] == ("eq", v_)
-            opt_view_of_aux = all((a_[0] == 1 and any(_dz(f, 1) for f in a_[3])) or (a_[0] == 0 and any(_dz(f, 0) for f in a_[3]))
-                                  for a_ in E.args[1]) and len(E.args[1]) == 2
-            head = [p_ for p_ in parts[:-1]]
-
-            def _norm(seq):
-                return [("part", Q_strip(p_[1])) if p_[0] == "part" else p_ for p_ in seq]
-            parts = [("alt", [_norm(head), _norm(head + list(opt_tail[0][2]))])]
-        def lp_pair(a, b):
-            return a[0] == "part" and b[0] == "part" and a[1].op == "bytes_of" and a[1].args[1] == 4 and \
-                Q.contains(a[1], lambda x: x.op == "len" and (x.args[0] is b[1] or Q_strip(x.args[0]) is Q_strip(b[1])))
-        ix = fidx(ctx, "sta_rs::MessageGenerator", "x")
-        alts = []
-        if parts and parts[0][0] == "alt":
-            alts = parts[0][1]
-        elif parts:
-            alts = [parts]
-        okm = bool(alts) and all(len(a) >= 2 and lp_pair(a[0], a[1]) and Q.path_of(a[1][1]) == "mg.%d.0" % ix for a in alts)
-        ctx.add("C01.R7", "sta_rs::Message::generate#measurement-chunk", okm,
-                "the payload must start with len|measurement (4-byte LE length of the same bytes)", cn[0]["at"],
-                sample=[[S(p[1], 4) for p in a if p[0] == "part"] for a in alts])
-        with_aux = [a for a in alts if len(a) == 4]
-        without = [a for a in alts if len(a) == 2]
-        oka = len(with_aux) == 1 and len(without) == 1 and lp_pair(with_aux[0][2], with_aux[0][3]) and \
-            Q.params(Q.leaves(with_aux[0][3][1])) == {"aux.v1.0.0"}
-        ctx.add("C01.R7", "sta_rs::Message::generate#aux-chunk", oka,
-                "the payload variants must be exactly {len|m, len|m . len|aux}; found %d variants with part counts %s"
-                % (len(alts), [len(a) for a in alts]), cn[0]["at"])
-        # the aux chunk is appended iff aux is Some: facts at the appending call = facts at the join + {aux is Some}
-        sb = [e for e in Q.calls(eng, "adss::store_bytes")          # in generate itself or in a helper it calls
-              if Q.params(Q.leaves(e["argv"][0])) == {"aux.v1.0.0"}]
-        if opt_view_of_aux and not sb:
-            ctx.add("C01.R7", "sta_rs::Message::generate#aux-iff-some", True,
-                    "the aux chunk is the tail of an iteration over a view of `aux` as an Option: written exactly when aux is Some",
-                    cn[0]["at"], sample=["optional tail over a view of aux"])
-        elif len(sb) == 1:
-            f_app = Q.closure(eng, eng.facts_at(sb[0]["frame"], sb[0]["block"]))
-            f_join = Q.closure(eng, eng.facts_at(cn[0]["frame"], cn[0]["block"]))
-            extra = [f for f in f_app - f_join]
-            def is_some(f):
-                return f[0].op == "discr" and Q.path_of(f[0].args[0]) == "aux" and f[1:] == ("eq", 1)
-
-            def view_of_some(f):
-                # discr(E) == k where E is a two-way view of aux (as_ref / as_deref / map of it): variant k is taken
-                # exactly when aux is Some
-                t, rel, v = f
-                if not (t.op == "discr" and rel == "eq" and t.args[0].op == "enum"):
-                    return False
-                alts = t.args[0].args[1]
-                mine = [a for a in alts if a[0] == v]
-                rest = [a for a in alts if a[0] != v]
-                return len(mine) == 1 and bool(mine[0][3]) and all(is_some(g) for g in mine[0][3]) and \
-                    all(any(g[0].op == "discr" and Q.path_of(g[0].args[0]) == "aux" and g[1:] == ("eq", 0) for g in a[3]) for a in rest)
-            only_some = bool(extra) and any(is_some(f) for f in extra) and all(is_some(f) or view_of_some(f) for f in extra)
-            ctx.add("C01.R7", "sta_rs::Message::generate#aux-iff-some", only_some,
-                    "the aux chunk must be written iff aux is Some; additional/other conditions: %s"
-                    % [Q.show_fact(f, 3) for f in extra], sb[0]["at"], sample=[Q.show_fact(f, 3) for f in extra])
-        else:
-            ctx.add("C01.R7", "sta_rs::Message::generate#aux-store", False, "expected one store_bytes of the aux (found %d)" % len(sb), at)
+    payload_framing(ctx, "C01.R7")
     # ---- R8 no measurement / epoch / aux / threshold value can crash generation, key derivation, decryption or the
     #         report codec (PANIC engine of C09 with the honest inputs as the varying data; allocation sizes excluded)
     from . import c09
@@ -220,6 +146,86 @@ def Q_strip(t):
     return t
 
 
+def payload_framing(ctx, rule):
+    """the payload handed to the report cipher is exactly len|measurement, followed by len|aux iff aux is Some - nothing
+    before, between or after (shared: C01.R7, C18.R10: the aggregation server's reader walks exactly this layout)"""
+    eng, ret, st, fr = ctx.root("sta_rs::Message::generate")
+    at = ctx.fn("sta_rs::Message::generate").loc
+    cn = Q.calls(eng, "sta_rs::Ciphertext::new")
+    if len(cn) != 1:
+        ctx.add(rule, "sta_rs::Message::generate#encrypt-call", False, "expected one Ciphertext::new call", at)
+    else:
+        data = cn[0]["argv"][1]
+        parts = Q.split_chain_loops(Q.parts_of(data))
+        ctx.extra["payload_parts"] = str(parts)[:600]
+        # `once(m).chain(aux.as_ref().map(..)).for_each(store)`: an optional tail - present exactly when the Option is Some
+        opt_tail = [p_ for p_ in parts if p_[0] == "opt"]
+        opt_view_of_aux = False
+        if len(opt_tail) == 1 and parts[-1] is opt_tail[0]:
+            E = opt_tail[0][1]
+
+            def _dz(f, v_):
+                return f[0].op == "discr" and Q.path_of(f[0].args[0]) == "aux" and f[1:] == ("eq", v_)
+            opt_view_of_aux = all((a_[0] == 1 and any(_dz(f, 1) for f in a_[3])) or (a_[0] == 0 and any(_dz(f, 0) for f in a_[3]))
+                                  for a_ in E.args[1]) and len(E.args[1]) == 2
+            head = [p_ for p_ in parts[:-1]]
+
+            def _norm(seq):
+                return [("part", Q_strip(p_[1])) if p_[0] == "part" else p_ for p_ in seq]
+            parts = [("alt", [_norm(head), _norm(head + list(opt_tail[0][2]))])]
+        def lp_pair(a, b):
+            return a[0] == "part" and b[0] == "part" and a[1].op == "bytes_of" and a[1].args[1] == 4 and \
+                Q.contains(a[1], lambda x: x.op == "len" and (x.args[0] is b[1] or Q_strip(x.args[0]) is Q_strip(b[1])))
+        ix = fidx(ctx, "sta_rs::MessageGenerator", "x")
+        alts = []
+        if parts and parts[0][0] == "alt":
+            alts = parts[0][1]
+        elif parts:
+            alts = [parts]
+        okm = bool(alts) and all(len(a) >= 2 and lp_pair(a[0], a[1]) and Q.path_of(a[1][1]) == "mg.%d.0" % ix for a in alts)
+        ctx.add(rule, "sta_rs::Message::generate#measurement-chunk", okm,
+                "the payload must start with len|measurement (4-byte LE length of the same bytes)", cn[0]["at"],
+                sample=[[S(p[1], 4) for p in a if p[0] == "part"] for a in alts])
+        with_aux = [a for a in alts if len(a) == 4]
+        without = [a for a in alts if len(a) == 2]
+        oka = len(with_aux) == 1 and len(without) == 1 and lp_pair(with_aux[0][2], with_aux[0][3]) and \
+            Q.params(Q.leaves(with_aux[0][3][1])) == {"aux.v1.0.0"}
+        ctx.add(rule, "sta_rs::Message::generate#aux-chunk", oka,
+                "the payload variants must be exactly {len|m, len|m . len|aux}; found %d variants with part counts %s"
+                % (len(alts), [len(a) for a in alts]), cn[0]["at"])
+        # the aux chunk is appended iff aux is Some: facts at the appending call = facts at the join + {aux is Some}
+        sb = [e for e in Q.calls(eng, "adss::store_bytes")          # in generate itself or in a helper it calls
+              if Q.params(Q.leaves(e["argv"][0])) == {"aux.v1.0.0"}]
+        if opt_view_of_aux and not sb:
+            ctx.add(rule, "sta_rs::Message::generate#aux-iff-some", True,
+                    "the aux chunk is the tail of an iteration over a view of `aux` as an Option: written exactly when aux is Some",
+                    cn[0]["at"], sample=["optional tail over a view of aux"])
+        elif len(sb) == 1:
+            f_app = Q.closure(eng, eng.facts_at(sb[0]["frame"], sb[0]["block"]))
+            f_join = Q.closure(eng, eng.facts_at(cn[0]["frame"], cn[0]["block"]))
+            extra = [f for f in f_app - f_join]
+            def is_some(f):
+                return f[0].op == "discr" and Q.path_of(f[0].args[0]) == "aux" and f[1:] == ("eq", 1)
+
+            def view_of_some(f):
+                # discr(E) == k where E is a two-way view of aux (as_ref / as_deref / map of it): variant k is taken
+                # exactly when aux is Some
+                t, rel, v = f
+                if not (t.op == "discr" and rel == "eq" and t.args[0].op == "enum"):
+                    return False
+                alts = t.args[0].args[1]
+                mine = [a for a in alts if a[0] == v]
+                rest = [a for a in alts if a[0] != v]
+                return len(mine) == 1 and bool(mine[0][3]) and all(is_some(g) for g in mine[0][3]) and \
+                    all(any(g[0].op == "discr" and Q.path_of(g[0].args[0]) == "aux" and g[1:] == ("eq", 0) for g in a[3]) for a in rest)
+            only_some = bool(extra) and any(is_some(f) for f in extra) and all(is_some(f) or view_of_some(f) for f in extra)
+            ctx.add(rule, "sta_rs::Message::generate#aux-iff-some", only_some,
+                    "the aux chunk must be written iff aux is Some; additional/other conditions: %s"
+                    % [Q.show_fact(f, 3) for f in extra], sb[0]["at"], sample=[Q.show_fact(f, 3) for f in extra])
+        else:
+            ctx.add(rule, "sta_rs::Message::generate#aux-store", False, "expected one store_bytes of the aux (found %d)" % len(sb), at)
+
+
 def payload_cipher_agreement(ctx, rule):
     """Ciphertext::new and Ciphertext::decrypt run the same keyed Strobe transcript (shared: C01.R2, C18.R9)"""
     engn, retn, stn, frn = ctx.root("sta_rs::Ciphertext::new")
@@ -239,6 +245,14 @@ def payload_cipher_agreement(ctx, rule):
     ctx.add(rule, "sta_rs::Ciphertext::new~decrypt#same-operation-sequence", bool(s_e) and s_e == s_d,
             "encrypt and decrypt must run the same Strobe operation sequence (send_enc vs recv_enc): %s vs %s" % (s_e, s_d), at,
             sample={"new": s_e, "decrypt": s_d})
+    def dirs(v):
+        return sorted({o.args[0] for o in Q.find_all(v, lambda t: t.op == "owf" and t.args[0] in ("send_enc", "recv_enc"))})
+    d_e, d_d = dirs(enc) if enc is not None else [], dirs(dec) if dec is not None else []
+    ctx.add(rule, "sta_rs::Ciphertext::new~decrypt#opposite-directions", len(d_e) == 1 and len(d_d) == 1 and d_e != d_d,
+            "the Strobe duplex absorbs the plaintext in one direction and the ciphertext in the other: encryption by send_enc "
+            "needs decryption by recv_enc (with the same call on both sides the states diverge after the first rate block); "
+            "found %s vs %s" % (d_e, d_d), at, sample={"new": d_e, "decrypt": d_d})
+
     def keyed(v):
         ks = []
         for o in Q.find_all(v, lambda t: t.op == "owf" and t.args[0] in ("send_enc", "recv_enc")):
